@@ -135,7 +135,16 @@ public:
     }
   }
 
-  void prepend(const Buffer& data) {prepend(data, data.size());}
+  void prepend(const Buffer& data)
+  {
+    if(&data == this)
+    {
+      Buffer copy(data);
+      prepend(copy.bufferStart, copy.size());
+    }
+    else
+      prepend(data, data.size());
+  }
 
   void append(const byte* data, usize size)
   {
